@@ -113,10 +113,14 @@ func buildEvidence(chk FullCheck, tier string, seed uint64, recs []runRecord, wa
 }
 
 func writeEvidence(id string, ev *Evidence) error {
-	os.MkdirAll("/verif/evidence", 0755)
+	dir := "/verif/evidence"
+	if d := os.Getenv("VERIF_EVIDENCE_DIR"); d != "" { // used when a seeded tree and the unchanged tree are explored side by side
+		dir = d
+	}
+	os.MkdirAll(dir, 0755)
 	b, err := json.MarshalIndent(ev, "", " ")
 	if err != nil {
 		return err
 	}
-	return os.WriteFile(fmt.Sprintf("/verif/evidence/%s.json", id), b, 0644)
+	return os.WriteFile(fmt.Sprintf("%s/%s.json", dir, id), b, 0644)
 }
